@@ -137,6 +137,10 @@ func c02Write(v Version, human bool, seekable bool, user, owner string, variant 
 			if variant%2 == 0 {
 				// long enough for an indirect /Length on a non-seekable sink, ending in an EOL
 				data = append(bytes.Repeat([]byte("0 0 m 100 100 l S % filler line\n"), 40), []byte("(endstream is a keyword) Tj\nQ\r\n")...)
+				if variant%4 == 2 {
+					// ... or in a bare carriage return
+					data = append(data[:len(data)-2], '\r')
+				}
 			}
 		}
 		ref := w.Alloc()
